@@ -326,11 +326,12 @@ class Run:
     """One real process under the deterministic loop. `do(op)` performs an environment op, `tick()` runs one callback;
     both append to .ops / .obs (the lines exchanged with the model) and to the raw records the monitors read."""
 
-    def __init__(self, prog, status0=None, plan=None):
+    def __init__(self, prog, status0=None, plan=None, process=None, loop=None):
+        """`process` / `loop`: adopt an existing instance (one loaded from a Bundle in `loop`) instead of creating one"""
         logging.disable(logging.CRITICAL)
         self.prog = prog
         self.status0 = status0
-        self.loop = detloop.DetLoop()
+        self.loop = loop if loop is not None else detloop.DetLoop()
         asyncio.set_event_loop(self.loop)
         self.loop_errs = []
         def on_loop_error(_loop, context):
@@ -342,8 +343,11 @@ class Run:
             self.loop_errs.append(excname(context['exception']) if context.get('exception') else str(context.get('message')))
         self.gc_notes = []
         self.loop.set_exception_handler(on_loop_error)
-        cls = build_class(prog)
-        self.p = p = cls(loop=self.loop)
+        if process is None:
+            cls = build_class(prog)
+            self.p = p = cls(loop=self.loop)
+        else:
+            self.p = p = process
         p._trace = []
         p._raised = []
         p._futs = [self.loop.create_future() for _ in range(prog.get('nfut', 0))]
